@@ -263,6 +263,19 @@ package server
 // a store that cannot be made stops the start-up with the error (no half-initialised broker)
 //@ ensures [C09] err == nil ==> called(Store.Init#1) == 1
 
+// init$1, the function handed to the session store's Iterate: it collects every session it is shown — whatever its
+// age or expiry (whether a session has expired is decided by the expiry check from the offline table, never here) —
+// with its client id, and always asks for the next one.
+//@ func (*server).init$1
+//@ props C09
+//@ requires [C09] session != nil
+//@ modifies allcells([]*gmqtt.Session), allcells([]string), allelems(*gmqtt.Session), allelems(string)
+//@ ensures [C09] result
+//@ ensures [C09] len(sts) == old(len(sts)) + 1 && sts[len(sts) - 1] == session
+//@ ensures [C09] len(cids) == old(len(cids)) + 1 && cids[len(cids) - 1] == session.ClientID
+//@ ensures [C09] forall i int :: 0 <= i && i < old(len(sts)) ==> sts[i] == old(sts[i])
+//@ ensures [C09] forall i int :: 0 <= i && i < old(len(cids)) ==> cids[i] == old(cids[i])
+
 // TerminateSession (administrative termination, C05): a connected client is marked "remove the session when the
 // connection ends" and its connection is closed — unregisterClient then terminates the session; an offline session is
 // terminated at once, with the reason "normal"; a client id that is neither online nor offline is left alone.
